@@ -11,7 +11,6 @@ import (
 	"strings"
 
 	"github.com/go-python/gpython/py"
-	"github.com/go-python/gpython/vm"
 )
 
 // Possible prompts for the REPL
@@ -63,16 +62,30 @@ func New(ctx py.Context) *REPL {
 func (r *REPL) SetUI(term UI) {
 	r.term = term
 	r.term.SetPrompt(NormalPrompt)
+	// Send the output of expression statements (PRINT_EXPR) of this
+	// REPL's context to the UI with a sys.displayhook - this must be
+	// per context as several REPLs can run at once
+	if sys, err := r.Context.GetModule("sys"); err == nil {
+		sys.Globals["displayhook"] = py.MustNewMethod("displayhook", func(self py.Object, value py.Object) (py.Object, error) {
+			// Print value except if None
+			// After printing, also assign to '_'
+			// Before, set '_' to None to avoid recursion
+			r.Module.Globals["_"] = py.None
+			if value != py.None {
+				repr, err := py.Repr(value)
+				if err != nil {
+					return nil, err
+				}
+				r.term.Print(fmt.Sprint(repr))
+			}
+			r.Module.Globals["_"] = value
+			return py.None, nil
+		}, 0, "displayhook(object) -> None")
+	}
 }
 
 // Run runs a single line of the REPL
 func (r *REPL) Run(line string) error {
-	// Override the PrintExpr output temporarily
-	oldPrintExpr := vm.PrintExpr
-	vm.PrintExpr = r.term.Print
-	defer func() {
-		vm.PrintExpr = oldPrintExpr
-	}()
 	if r.continuation {
 		if line != "" {
 			r.previous += string(line) + "\n"
